@@ -26,7 +26,11 @@ use crate::rrdpsrv::{self, Server};
 use crate::util;
 
 #[derive(Clone, Copy, Debug, Eq, PartialEq)]
-pub enum Ev { Base, Ca2Gone, Ca1Rrdp, Ca1RrdpOther, Ca1Unreachable, Ca2Back, Ca2Broken, ShortLived }
+pub enum Ev { Base, Ca2Gone, Ca1Rrdp, Ca1RrdpOther, Ca1Unreachable, Ca2Back, Ca2Broken, ShortLived,
+    /// several rsync modules and RRDP repositories, each holding short-lived and long-lived CAs
+    Groups,
+    /// the same publication again after the short-lived manifests have expired
+    GroupsLater }
 const EVENTS: [Ev; 7] = [Ev::Base, Ev::Ca2Gone, Ev::Ca1Rrdp, Ev::Ca1RrdpOther, Ev::Ca1Unreachable, Ev::Ca2Back, Ev::Ca2Broken];
 
 #[derive(Clone, Debug)]
@@ -63,6 +67,37 @@ fn tree(idx: usize, ev: Ev, step: usize) -> TreeSpec {
     if ev == Ev::Ca2Broken { ca2.point_fault = Some(crate::rpkigen::PointFault::NoManifest); }
     ta.children.push(ca1);
     if ev != Ev::Ca2Gone { ta.children.push(ca2); }
+    TreeSpec { tals: vec![TalSpec { name: "alpha".into(), ta_uri: format!("rsync://{}/repo/ta0.cer", h[0]), ca: ta, wrong_key: false, https_uri: None }] }
+}
+
+/// Seconds the short-lived manifest certificates of `Ev::Groups` live.
+const SHORT_LIFE: i64 = 3;
+const GROUPS: usize = 4;
+const PER_GROUP: usize = 4;
+
+/// TA plus GROUPS x PER_GROUP CAs: group g lives in its own rsync module
+/// (even g) or RRDP repository (odd g); in each group one CA (a different
+/// position per group) has a long-lived manifest certificate, the others
+/// expire after SHORT_LIFE seconds.
+fn groups_tree(idx: usize) -> TreeSpec {
+    let h = hosts(idx);
+    let mut ta = CaSpec::new("ta0", 0, &h[0], "repo");
+    ta.v4 = vec![(Ipv4Addr::new(10, 0, 0, 0), 8)];
+    ta.asns = vec![(64496, 64600)];
+    ta.objs = vec![ObjSpec::roa("rta", 64496, "10.0.0.0", 16, 16)];
+    for g in 0..GROUPS {
+        for j in 0..PER_GROUP {
+            let n = g * PER_GROUP + j;
+            // sibling CAs may share a key pair (12 CA keys in the pool)
+            let mut ca = CaSpec::new(&format!("g{g}k{j}"), 1 + n % 11, &h[1], &format!("m{g}"));
+            ca.v4 = vec![(Ipv4Addr::new(10, 100 + g as u8, j as u8, 0), 24)];
+            ca.asns = vec![(64500 + n as u32, 64500 + n as u32)];
+            ca.objs = vec![ObjSpec::roa("r", 64500 + n as u32, &format!("10.{}.{j}.0", 100 + g), 24, 24)];
+            if g % 2 == 1 { ca.rpki_notify = Some(format!("https://{}/g{g}/notification.xml", h[3])); }
+            if j != g % PER_GROUP { ca.mft_ee_not_after = SHORT_LIFE; }
+            ta.children.push(ca);
+        }
+    }
     TreeSpec { tals: vec![TalSpec { name: "alpha".into(), ta_uri: format!("rsync://{}/repo/ta0.cer", h[0]), ca: ta, wrong_key: false, https_uri: None }] }
 }
 
@@ -125,23 +160,58 @@ fn run_case(gen: &Gen, dir: PathBuf, idx: usize, c: &CaseSpec) -> Result<String,
     let twins = [Twin { case: Case::new(dir.join("clean")), dirty: false }, Twin { case: Case::new(dir.join("dirty")), dirty: true }];
     let hk = hooks::hooks();
     let mut summary = String::new();
+    // where the stored point of each CA seen so far lives, and the collector
+    // copy it was taken from (paths relative to a cache directory, computed
+    // by the real path functions on a scratch cache)
+    let paths_case = Case::new(dir.join("paths"));
+    let mut paths_config = paths_case.config();
+    paths_config.disable_rrdp = false;
+    let path_fns = (
+        routinator::store::Store::new(&paths_config).map_err(|_| ("harness".to_string(), "Store::new".to_string()))?,
+        routinator::collector::verif::RrdpCollector::new(&paths_config).ok().flatten(),
+        routinator::collector::verif::RsyncCollector::new(&paths_config).ok().flatten(),
+    );
+    let rel = |p: PathBuf| p.strip_prefix(&paths_config.cache_dir).map(|x| x.to_path_buf()).unwrap_or(p);
+    let mut uses: BTreeMap<PathBuf, PathBuf> = BTreeMap::new();
+    let mut prev_image: Option<(Image, Time)> = None;
     for (step, ev) in c.events.iter().enumerate() {
         let last = step + 1 == c.events.len();
         let ev_tree = if *ev == Ev::Ca2Back || *ev == Ev::Ca1Unreachable { Ev::Base } else { *ev };
-        let image: Image = Builder::new(gen, Stale::Reject).build(&tree(idx, ev_tree, step));
+        let image: Image = match ev {
+            Ev::Groups => Builder::new(gen, Stale::Reject).build(&groups_tree(idx)),
+            Ev::GroupsLater => {
+                // the same objects, once the short-lived certificates are over
+                let Some((image, built)) = prev_image.clone() else { return Err(("harness".into(), "GroupsLater without Groups".into())) };
+                let wait = SHORT_LIFE + 1 - (Time::now().timestamp() - built.timestamp());
+                if wait > 0 { std::thread::sleep(std::time::Duration::from_secs(wait as u64)); }
+                image
+            }
+            _ => Builder::new(gen, Stale::Reject).build(&tree(idx, ev_tree, step)),
+        };
+        if *ev != Ev::GroupsLater { prev_image = Some((image.clone(), Time::now())); }
+        for ca in &image.cas {
+            use std::str::FromStr;
+            let Ok(mft) = rpki::uri::Rsync::from_str(&ca.mft_uri) else { continue };
+            let notify = ca.rpki_notify.as_ref().and_then(|n| rpki::uri::Https::from_str(n).ok());
+            let point = rel(path_fns.0.verif_point_path(notify.as_ref(), &mft));
+            let copy = match &notify {
+                Some(n) => path_fns.1.as_ref().and_then(|c| c.verif_repository_path(n)),
+                None => path_fns.2.as_ref().map(|c| c.verif_paths(&mft).0),
+            };
+            if let Some(copy) = copy { uses.insert(point, rel(copy)); }
+        }
         // RRDP servers for the CA1 publication point
-        {
+        if *ev != Ev::GroupsLater {
             let mut s = servers.lock().unwrap();
             s.clear();
             for ca in &image.cas {
                 if let Some(n) = ca.rpki_notify.as_ref() {
                     let base = n.trim_end_matches("/notification.xml").to_string();
-                    let mut srv = Server::new(&base);
+                    let srv = s.entry(base.clone()).or_insert_with(|| Server::new(&base));
                     for (uri, data) in &image.files { if uri.starts_with(&ca.repo_uri) { srv.objects.insert(uri.clone(), data.clone()); } }
-                    srv.new_session();
-                    s.insert(base, srv);
                 }
             }
+            for srv in s.values_mut() { srv.new_session(); }
         }
         let mut payloads: Vec<BTreeSet<RouteOrigin>> = Vec::new();
         for t in &twins {
@@ -231,7 +301,21 @@ fn run_case(gen: &Gen, dir: PathBuf, idx: usize, c: &CaseSpec) -> Result<String,
                 return Err(("unexpired-point-unreadable".into(), format!("history {:?}, run {}: stored point {} no longer loads", c.events, step + 1, p.display())))
             }
         }
-        summary.push_str(&format!("{}:{unexpired} ", payloads.first().map(|p| p.len()).unwrap_or(0)));
+        // ... and so must the collector copy each unexpired stored point was taken from
+        let mut copies = 0;
+        for (point, copy) in &uses {
+            let Some(sp) = StoredPoint::load_quietly(clean_cache.join(point)) else { continue };
+            let Some(m) = sp.manifest() else { continue };
+            if m.not_after <= now || !dirty_cache.join(copy).exists() { continue }
+            copies += 1;
+            if !clean_cache.join(copy).exists() {
+                return Err(("collector-copy-removed".into(), format!(
+                    "history {:?}, run {}: stored point {} (manifest certificate valid until {}) is kept, but the collector copy {} it belongs to was removed by cleanup",
+                    c.events, step + 1, point.display(), m.not_after.to_rfc3339(), copy.display()
+                )))
+            }
+        }
+        summary.push_str(&format!("{}:{unexpired}:{copies} ", payloads.first().map(|p| p.len()).unwrap_or(0)));
     }
     let _ = fs::remove_dir_all(&dir);
     Ok(summary.trim().to_string())
@@ -246,6 +330,10 @@ fn cases(thorough: bool) -> Vec<CaseSpec> {
         for s in &seqs { for e in EVENTS { let mut t = s.clone(); t.push(e); next.push(t); } }
         seqs = next;
     }
+    // expiry next to live siblings (a real wait of a few seconds, so only these)
+    res.push(CaseSpec { events: vec![Ev::Groups, Ev::GroupsLater], fail_last: None });
+    res.push(CaseSpec { events: vec![Ev::Groups, Ev::GroupsLater], fail_last: Some("processed") });
+    if thorough { res.push(CaseSpec { events: vec![Ev::Groups, Ev::GroupsLater, Ev::GroupsLater], fail_last: None }); }
     for s in seqs {
         res.push(CaseSpec { events: s.clone(), fail_last: None });
         if s.last() != Some(&Ev::Ca2Back) || thorough {
@@ -273,7 +361,14 @@ pub fn run(ctx: &Ctx) -> Report {
         copy; every stored point that the dirty twin holds and whose \
         manifest certificate has not expired exists and loads in the \
         normal twin; the dirty twin never loses a file; a failed run \
-        removes no file; both twins serve the same data; non-trivial = \
+        removes no file; both twins serve the same data; the collector \
+        copy (rsync module directory / RRDP archive, located with the real \
+        path functions) of every unexpired stored point still exists if the \
+        dirty twin has it; plus an expiry history: 4 groups (2 rsync \
+        modules, 2 RRDP repositories) of 4 sibling CAs each, three of \
+        which have manifest certificates living 3 s and one (a different \
+        position in each group) days, run once and, after a real wait, \
+        again; non-trivial = \
         histories in which something moves, disappears or fails".into();
     rep.bound = format!("{} histories", cases.len());
     let threads = std::env::var("ETREE_THREADS").ok().and_then(|s| s.parse().ok()).unwrap_or(8);
@@ -296,14 +391,14 @@ pub fn run(ctx: &Ctx) -> Report {
         }
     }
     rep.sample(json!({"events": ["Ca1Rrdp", "Ca1RrdpOther"], "fail_last": null}));
-    rep.assumptions.push("manifest certificates are valid for days, so 'not expired' holds for every stored point of these histories; expiry-driven removal is exercised only in that nothing unexpired may go".into());
+    rep.assumptions.push("expiry is exercised by the two Groups histories only (12 of 16 sibling CAs expire between the runs); in all other histories manifest certificates are valid for days".into());
     rep
 }
 
 pub fn replay(ctx: &Ctx, v: &Value) -> Report {
     let gen = Gen::load();
     let mut rep = Report::new("fault_enumeration");
-    let all = [Ev::Base, Ev::Ca2Gone, Ev::Ca1Rrdp, Ev::Ca1RrdpOther, Ev::Ca1Unreachable, Ev::Ca2Back, Ev::Ca2Broken, Ev::ShortLived];
+    let all = [Ev::Base, Ev::Ca2Gone, Ev::Ca1Rrdp, Ev::Ca1RrdpOther, Ev::Ca1Unreachable, Ev::Ca2Back, Ev::Ca2Broken, Ev::ShortLived, Ev::Groups, Ev::GroupsLater];
     let events: Vec<Ev> = v["events"].as_array().map(|a| a.iter().filter_map(|x| all.iter().find(|e| format!("{e:?}") == x.as_str().unwrap_or("")).copied()).collect()).unwrap_or_default();
     let c = CaseSpec { events, fail_last: if v["fail_last"].is_null() { None } else { Some("processed") } };
     let r = run_case(&gen, ctx.scratch.join("replay"), 99999, &c);
